@@ -68,6 +68,19 @@ def apply_edit(root, edit):
             return "function %s not found" % edit["func"]
         lines = src.split("\n")
         seg = "\n".join(lines[span[0] - 1 : span[1]])
+        if edit.get("regex"):
+            import re
+
+            seg2, cnt = re.subn(edit["old"], edit["new"], seg)
+            if cnt == 0:
+                return "pattern not found in %s" % edit["func"]
+            new_src = "\n".join(lines[: span[0] - 1]) + ("\n" if span[0] > 1 else "") + seg2 + "\n" + "\n".join(lines[span[1] :])
+            try:
+                compile(new_src, str(p), "exec")
+            except SyntaxError as e:
+                return "variant does not compile: %s" % e
+            p.write_text(new_src)
+            return None
         cnt = seg.count(edit["old"])
         if cnt == 0:
             return "anchor text not found in %s" % edit["func"]
@@ -108,7 +121,9 @@ def analyse(prop, root):
     try:
         repo = Repo.load(root)
         ctx = report.Ctx(repo, prop, tier="quick")
-        mod.run(ctx)
+        from ..rules import shapes
+
+        shapes.run_all(mod, ctx, prop)
     except AnalysisError as e:
         return 2, [{"rule": "ANALYSIS-ERROR", "message": str(e), "function": "", "stmt": "", "module": ""}]
     known = report.load_known()
@@ -164,6 +179,10 @@ def judge(variant, res, baseline_keys):
 def load_catalog():
     from . import catalog
 
+    ids = [v["id"] for v in catalog.VARIANTS]
+    dup = sorted({i for i in ids if ids.count(i) > 1})
+    if dup:
+        raise AnalysisError("self-test catalogue has duplicate ids: %s" % dup)
     return catalog.VARIANTS
 
 
